@@ -1,5 +1,6 @@
 import Mp4ff.Driver.C13
 import Mp4ff.Driver.C14
+import Mp4ff.Driver.C18
 /-! `mp4ffdrv`: one request per input line, one response per output line. -/
 open Mp4ff.Driver
 
@@ -11,6 +12,9 @@ def respond (line : String) : String :=
     | some r => r
     | none =>
     match C14.dispatch op args with
+    | some r => r
+    | none =>
+    match C18.dispatch op args with
     | some r => r
     | none => "bad-op"
 
